@@ -97,6 +97,12 @@ def flags(ops, case):
             for i, o in enumerate(ops)
         ),
         assign_other_then=any(o["op"] == "assign" and D.uses(o, "other") for o in head),
+        # a filter whose predicate comes from ANOTHER partitioning (FilterAlign), followed by a later step (e.g. a
+        # column selection) / by a later filter
+        filter_other_then=any(o["op"] == "filter" and D.uses(o["pred"], "other") for o in head),
+        filter_other_then_filter=any(
+            o["op"] == "filter" and D.uses(o["pred"], "other") and any(q["op"] == "filter" for q in ops[i + 1:]) for i, o in enumerate(ops)
+        ),
         # a series of another collection / of the unfiltered frame assigned into a frame that may have an
         # empty partition (one was empty from the start, or a filter ran before)
         assign_foreign_maybe_empty=any(case.has_empty or any(o["op"] == "filter" for o in ops[:i]) for i in foreign),
@@ -175,6 +181,10 @@ def check(spec):
             v.sig["unknown_div_same_nparts"] = same_nparts(case, envd)
             v.sig.update(align_flags(case, envd))
             cause = v.__cause__
+            # a TypeError about an operand of the bare class `object` ("bad operand type for abs(): 'object'",
+            # "'>=' not supported between instances of 'object' and 'object'"): the opaque object() placeholder
+            # of dask's non-empty meta for object columns took part in a real operation
+            v.sig["object_placeholder_operand"] = isinstance(cause, TypeError) and "'object'" in str(cause)
             if isinstance(cause, NotImplementedError):
                 count("dask-notimplemented")
                 raise Reject("dask refuses: NotImplementedError") from None
